@@ -42,6 +42,9 @@ def gen_spec(r: random.Random, flavor: str, **over) -> dict:
         # connection attempts that fail (ConnectError / ConnectTimeout) and are retried with back-off by direct connections
         "retries": r.choice([0, 0, 1, 3]),
         "connect_fail": r.choice([0.0, 0.0, 0.0, 0.3, 0.6]),
+        # same-instant scheduling jitter: operations complete 0-3 scheduler round-trips later (asyncio's FIFO order
+        # is otherwise fully determined by the program)
+        "jitter": r.random() < 0.5,
     }
     if proto == "h2":
         spec["proxy"] = r.choice([None, None, "tun", "socks"])
@@ -80,6 +83,9 @@ class Workload:
         lat_rng = random.Random(spec["seed"] + 1)
         if spec["latency"] == "mixed":
             net.latency = lambda kind, idx: lat_rng.choice([0.0, 0.0, 0.0, 0.001, 0.01, 0.1])
+        if spec.get("jitter"):
+            hop_rng = random.Random(spec["seed"] + 7)
+            net.hops = lambda kind, idx: hop_rng.choice([0, 0, 0, 1, 2, 3])
         seed = spec["seed"]
         modes = spec.get("server_modes", True)
         base_delay = spec.get("resp_delay", 0.0)
